@@ -412,7 +412,7 @@ func execute(c *run.Ctx, sc *scenario) run.Result {
 				p := vec{float64(x) / sc.CPU, float64(y) / sc.CPU, float64(z) / sc.CPU}
 				fv := refField(p)
 				if math.Abs(fv-sc.Cut) < 1e-9 {
-					res.Inconclusive = fmt.Sprintf("degenerate: lattice point %v lies within 1e-9 of the threshold (classification would depend on rounding)", q)
+					res.Inconclusive = fmt.Sprintf("degenerate (lattice sample within 1e-9 of the threshold): point %v, classification would depend on rounding", q)
 					return res
 				}
 				g.in[i] = fv < sc.Cut
@@ -438,14 +438,12 @@ func execute(c *run.Ctx, sc *scenario) run.Result {
 			}
 		}
 	}
-	// Stated skip rule (evaluated on the sampled input only): a gap or wall thinner than the weld.
-	// polyform welds vertices at 3 decimals of a world unit. Where a lattice point has sign changes
-	// towards BOTH neighbours of one axis and both crossings lie within 0.002 world units of it, two
-	// sheets of the surface are closer than the weld granule there; when that happens at two corners of
-	// one cell the weld can glue the sheets along an edge. That is the documented granularity of the
-	// canvas, not a marching fault, so such a case is not decided.
-	if q, ok := thinFeature(rec, g, sc.Cut, 0.002*sc.CPU); ok {
-		res.Inconclusive = fmt.Sprintf("degenerate: gap or wall thinner than the 0.001 weld at the neighbouring lattice points %v and %v (opposite sign changes within 0.002 units)", q[0], q[1])
+	// Stated skip rule (evaluated on the sampled input only): features below the weld granule.
+	// polyform welds vertices at 3 decimals of a world unit; see thinFeature. Merging two crossings that
+	// no mesh edge joins is the documented granularity of the canvas, not a marching fault, so such a
+	// case is not decided (inconclusive, counted).
+	if why, ok := thinFeature(rec, g, sc.Cut, sc.CPU); ok {
+		res.Inconclusive = "degenerate (surface feature thinner than the 0.001 weld): " + why
 		return res
 	}
 	st := g.stats()
@@ -464,7 +462,7 @@ func execute(c *run.Ctx, sc *scenario) run.Result {
 		res.Violate("below-threshold-point-not-sampled", "MarchingCanvas.AddField", sc.Mode, fmt.Sprintf("%d below-threshold lattice points inside the declared domain were never sampled; %s || case: %s", unsampledInside, firstUns, desc), sc)
 	}
 	if st.Edges == 0 {
-		res.Inconclusive = "degenerate: no lattice point below the threshold (nothing to march)"
+		res.Inconclusive = "degenerate (no lattice point below the threshold): nothing to march"
 		return res
 	}
 	if sc.API != "Field.March" {
@@ -550,51 +548,68 @@ func execute(c *run.Ctx, sc *scenario) run.Result {
 	return res
 }
 
-// thinFeature looks for lattice points whose two neighbours along one axis are both on the other
-// side of the threshold with both linear-interpolation crossings within `cells` of the point (the two
-// crossings then fall into one weld cell), and reports two such points that are corners of one cell:
-// only then can the weld glue two sheets along an edge. It uses the values the canvas received (0
-// where nothing was sampled).
-func thinFeature(rec *recorder, g *region, cut, cells float64) ([2][3]int, bool) {
-	var thin [][3]int
+// thinFeature is the stated skip rule for features below the weld granule. polyform welds vertices
+// that round to the same 3 decimals of a world unit. The rule looks, on the sampled input only, for a
+// lattice point with two sign-changing incident edges whose linear-interpolation crossings can fall
+// into one such rounding cell although no mesh edge can join them: the two edges are collinear (both
+// neighbours of one axis are on the other side: a gap, wall, crease or sliver thinner than the weld) or
+// they span a cell face whose fourth corner is on the point's own side (ambiguous face). Welding two
+// vertices that are not neighbours identifies two different places of the surface - the documented
+// granularity of the canvas, not a marching fault. Values are those the canvas received (0 where
+// nothing was sampled); only signs and the interpolation formula are used, nothing of the table.
+func thinFeature(rec *recorder, g *region, cut, cpu float64) (string, bool) {
+	type cross struct {
+		axis, sign int
+		t          float64 // distance from the lattice point in cells
+	}
+	slack := 1e-4/cpu + 1e-9 // a block may have moved a vertex by up to 1e-4 cells before the weld
+	mayShareCell := func(a1, a2 float64) bool {
+		lo1, hi1 := math.Round((a1-slack)*1000), math.Round((a1+slack)*1000)
+		lo2, hi2 := math.Round((a2-slack)*1000), math.Round((a2+slack)*1000)
+		return lo1 <= hi2 && lo2 <= hi1
+	}
+	reach := 0.001*cpu + 2e-4
 	for z := g.lo[2]; z < g.lo[2]+g.n[2]; z++ {
 		for y := g.lo[1]; y < g.lo[1]+g.n[1]; y++ {
 			for x := g.lo[0]; x < g.lo[0]+g.n[0]; x++ {
 				q := [3]int{x, y, z}
 				v, _ := rec.value(q)
+				var near []cross
 				for a := 0; a < 3; a++ {
-					near := 0
 					for _, d := range [2]int{-1, 1} {
 						n := q
 						n[a] += d
 						w, _ := rec.value(n)
-						if (v < cut) != (w < cut) && math.Abs(v-cut) <= cells*math.Abs(v-w) {
-							near++
+						if (v < cut) != (w < cut) && math.Abs(v-cut) <= reach*math.Abs(v-w) {
+							near = append(near, cross{a, d, math.Abs(v-cut) / math.Abs(v-w)})
 						}
 					}
-					if near == 2 {
-						thin = append(thin, q)
-						break
+				}
+				for i, p := range near {
+					for _, r := range near[i+1:] {
+						if p.axis == r.axis {
+							c := float64(q[p.axis])
+							if mayShareCell((c+float64(p.sign)*p.t)/cpu, (c+float64(r.sign)*r.t)/cpu) {
+								return fmt.Sprintf("lattice point %v (sample - threshold = %g) changes side towards both neighbours of axis %d and both crossings round to one weld cell", q, v-cut, p.axis), true
+							}
+							continue
+						}
+						f := q
+						f[p.axis] += p.sign
+						f[r.axis] += r.sign
+						if w, _ := rec.value(f); (w < cut) != (v < cut) {
+							continue // the face cuts this corner off: the two crossings are joined by a mesh edge
+						}
+						cp, cr := float64(q[p.axis]), float64(q[r.axis])
+						if mayShareCell((cp+float64(p.sign)*p.t)/cpu, cp/cpu) && mayShareCell(cr/cpu, (cr+float64(r.sign)*r.t)/cpu) {
+							return fmt.Sprintf("lattice point %v (sample - threshold = %g) changes side along axes %d and %d across an ambiguous cell face and both crossings round to one weld cell", q, v-cut, p.axis, r.axis), true
+						}
 					}
 				}
 			}
 		}
 	}
-	for i, p := range thin {
-		for _, q := range thin[i+1:] {
-			if abs(p[0]-q[0]) <= 1 && abs(p[1]-q[1]) <= 1 && abs(p[2]-q[2]) <= 1 {
-				return [2][3]int{p, q}, true
-			}
-		}
-	}
-	return [2][3]int{}, false
-}
-
-func abs(a int) int {
-	if a < 0 {
-		return -a
-	}
-	return a
+	return "", false
 }
 
 // seamTrigger looks for the input condition of the block-seam weld defect: a lattice point on a
@@ -693,7 +708,7 @@ func Spec() *run.Spec {
 			"closedness is judged on the vertex ids polyform returns (its weld is part of the behaviour); positions are merged by the oracle only to tell an unwelded seam from a hole",
 			"'within one cell of the true isosurface' is checked as: some lattice point below and some lattice point not below the threshold lie within one cell (+0.001*sqrt(3) world units of weld displacement) of the vertex - a sign change of a continuous field inside that ball - and, for analytic unions, |f(v)-c| <= L*h for the harness's own L-Lipschitz distance field",
 			"additionally every lattice edge whose ends are on different sides must carry a mesh vertex and the enclosed volume must lie between the number of cells entirely below the threshold and that number plus the straddling cells (a closed surface that separates the samples); both follow for any correct marching and need no knowledge of the table",
-			"stated skip rules (inconclusive, never held): a lattice sample within 1e-9 of the threshold (classification would depend on rounding); a gap or wall thinner than the 0.001 weld along an edge (two lattice points of one cell, each with sign changes towards both neighbours of an axis and both crossings within 0.002 units). The DESIGN's 2% rule was narrowed to these: a 2% band around lattice corners is hit by practically every analytic surface, and polyform's weld drops the faces it collapses, so ordinary merges near a lattice corner leave the surface closed (they are counted, not skipped)",
+			"stated skip rules (inconclusive, never held): a lattice sample within 1e-9 of the threshold (classification would depend on rounding); a surface feature thinner than the 0.001 weld (a lattice point with two sign-changing edges that no mesh edge can join - towards both neighbours of one axis, or across an ambiguous cell face - whose interpolated crossings can round to the same 3-decimal weld cell). The DESIGN's 2% rule was narrowed to these: a 2% band around lattice corners is hit by practically every analytic surface, and polyform's weld drops the faces it collapses, so ordinary merges near a lattice corner leave the surface closed (they are counted, not skipped)",
 			"resolutions above 12 cubes per unit (0.001 weld comparable to the cell) are out of reach",
 		},
 		MinNontrivial: map[string]int{"quick": 40, "thorough": 600},
